@@ -537,8 +537,53 @@ def gen_cprules() -> str:
             rest = choice(els)
         return f"if {test(node.test)} then {choice(node.body)}\n  else {rest}"
 
+    # -- bound_by(row): the class of a breakdown row
+    funcs = {n.name: n for n in tree.body if isinstance(n, ast.FunctionDef)}
+    if "bound_by" not in funcs or [a.arg for a in funcs["bound_by"].args.args] != ["row"]:
+        raise Stop("bound_by(row) not found")
+    value_code = {}
+    for st in classes["CPEdgeType"].body:
+        if isinstance(st, ast.Assign) and isinstance(st.value, ast.Constant) and isinstance(st.value.value, str):
+            value_code[st.value.value] = code[st.targets[0].id]
+    classes_code = {"cpu_bound": 0, "gpu_compute_bound": 1, "gpu_communication_bound": 2, "gpu_kernel_kernel_overhead": 3,
+                    "gpu_kernel_launch_overhead": 4, "": 5}
+
+    def b_test(e) -> str:
+        u = ast.unparse(e)
+        if isinstance(e, ast.Compare) and len(e.ops) == 1 and ast.unparse(e.left) == "row['type']":
+            if isinstance(e.ops[0], ast.Eq) and isinstance(e.comparators[0], ast.Constant) and e.comparators[0].value in value_code:
+                return f"(ty =? {value_code[e.comparators[0].value]})"
+            if isinstance(e.ops[0], ast.In) and isinstance(e.comparators[0], (ast.List, ast.Set, ast.Tuple)) and \
+                    all(isinstance(x, ast.Constant) and x.value in value_code for x in e.comparators[0].elts):
+                return "existsb (Z.eqb ty) " + fw.zl([value_code[x.value] for x in e.comparators[0].elts])
+        if u == "row['stream'] < 0":
+            return "(stream <? 0)"
+        if u == "is_comm_kernel(row['s_name'])":
+            return "is_comm"
+        raise Stop(f"bound_by: test {u}")
+
+    def b_ret(st) -> str:
+        if not (isinstance(st, ast.Return) and isinstance(st.value, ast.Constant) and st.value.value in classes_code):
+            raise Stop(f"bound_by: {ast.unparse(st)} is not the return of a known class")
+        return str(classes_code[st.value.value])
+
+    def b_block(stmts) -> str:
+        if not stmts:
+            raise Stop("bound_by: control falls off the end")
+        st, rest = stmts[0], stmts[1:]
+        if isinstance(st, ast.Expr) and isinstance(st.value, ast.Constant):
+            return b_block(rest)
+        if isinstance(st, ast.Assert):
+            return b_block(rest)          # assert not pd.isna(row["s_name"]): an attributed row always has a name (checked by check_C10: the event exists)
+        if isinstance(st, ast.Return):
+            return b_ret(st)
+        if isinstance(st, ast.If) and not st.orelse and len(st.body) == 1:
+            return f"if {b_test(st.test)} then {b_ret(st.body[0])}\n  else {b_block(rest)}"
+        raise Stop(f"bound_by: statement {type(st).__name__}")
+    bound_text = b_block(list(funcs["bound_by"].body))
+
     text = f'''(* GENERATED by harness/translate.py from hta/analyzers/critical_path_analysis.py (CPEdgeType, CPGraph._add_edge_helper,
-   CPGraph._attribute_edge) -- do not edit.  Edge types are numbered in the order of the members of CPEdgeType:
+   CPGraph._attribute_edge, bound_by) -- do not edit.  Edge types are numbered in the order of the members of CPEdgeType:
    {", ".join(f"{i} {m}" for m, i in code.items())}. *)
 From HTA.lib Require Import Base.
 Open Scope Z_scope.
@@ -552,6 +597,11 @@ Definition edge_weight_gen (ty : Z) (zero_weight : bool) (src_ts dst_ts : Z) : Z
 Definition attributed_types_gen : list Z := {fw.zl(attributed)}.
 Definition attr_rule_gen (ty : Z) (src_start dst_start : bool) (src_ev dst_ev src_parent : Z) : Z :=
   {chain_text(chain[0])}.
+
+(* bound_by(row): 0 cpu_bound, 1 gpu_compute_bound, 2 gpu_communication_bound, 3 gpu_kernel_kernel_overhead, 4 gpu_kernel_launch_overhead,
+   5 the empty class; ty = the row's edge type, stream / is_comm = stream and communication-kernel test of the attributed event *)
+Definition bound_by_gen (ty : Z) (stream : Z) (is_comm : bool) : Z :=
+  {bound_text}.
 '''
     write_if_changed(os.path.join(GEN, "CpRules_gen.v"), text)
     return "gen/CpRules_gen.v"
